@@ -14,6 +14,7 @@ def node(kind, code=(), init=0, post=0):
     return {"kind": kind, "init": init, "code": list(code), "post": post, "panic_if": -1}
 
 PAR = "--par" in sys.argv     # 2-successor items read their successors concurrently (join_all)
+FW = "--fw" in sys.argv       # some ring nodes are firewalls, one consumer is a projection of a firewall ring node
 
 
 def programs(seed, max4):
@@ -43,6 +44,17 @@ def programs(seed, max4):
                         else:
                             code.append(item(list(succ), g=1, gc=1, c=1, mode=md))
                         nodes.append(node("Nm", code, init=0))
+                    if FW:
+                        # firewalls on the ring: the first ring node always, every other one by a seeded coin;
+                        # consumers: a projection of the firewall ring node (projections read firewalls /
+                        # projections only), a normal reader of that projection and of the last ring node
+                        for j in range(k):
+                            if j == 0 or rnd.random() < 0.4:
+                                nodes[n_in + j]["kind"] = "Fw"
+                        nodes.append(node("Pj", [item([ring[0]], c=1)]))
+                        nodes.append(node("Nm", [item([1]), item([len(nodes), ring[-1]], c=0)]))
+                        out.append({"m": 3, "nodes": nodes})
+                        continue
                     # consumers
                     nodes.append(node("Nm", [item([1]), item([ring[0]], c=1)]))
                     nodes.append(node("Nm", [item([ring[-1], ring[0]], c=0)]))
